@@ -1,6 +1,6 @@
 SPECIFICATION Spec
 CONSTANTS
-  MaxLen = 4
+  MaxLen = 3
   TightMax = 3
   Kinds = {"H2", "H3", "H4", "P", "C", "L", "Q", "I", "F"}
 INVARIANTS ElementsAgree NothingLost SectionLaw MergeLaw TocLaw Emit
